@@ -17,6 +17,7 @@ import (
 	"git.metabarcoding.org/obitools/obitools4/obitools4/pkg/obiformats"
 	"github.com/dsnet/compress/bzip2"
 	"github.com/klauspost/compress/zstd"
+	pgzip "github.com/klauspost/pgzip"
 	"github.com/ulikunitz/xz"
 )
 
@@ -38,6 +39,25 @@ type faultFile struct {
 	Nrec     int    `json:"nrec"`
 	ErrText  string `json:"errtext"`
 	SizeTag  string `json:"size"`
+	Pgz      string `json:"pgz"` // gz only: does klauspost/pgzip (the reader the repository links) itself report the fault ?
+}
+
+// pgzipVerdict runs the third-party gzip reader used by the repository directly on the bytes.
+func pgzipVerdict(data []byte) string {
+	rd, err := pgzip.NewReader(bytes.NewReader(data))
+	if err != nil {
+		return "rejects"
+	}
+	buf := make([]byte, 1<<16)
+	for {
+		_, err := rd.Read(buf)
+		if err == io.EOF {
+			return "accepts"
+		}
+		if err != nil {
+			return "rejects"
+		}
+	}
 }
 
 func randSeq(r *rand.Rand, n int) string {
@@ -206,6 +226,9 @@ func recordC17(env *Env) {
 				if same {
 					f.Same = 1
 				}
+				if codec == "gz" {
+					f.Pgz = pgzipVerdict(cdata[:t])
+				}
 				emit(f, cdata[:t])
 			}
 			// single bit flips (small files only: the checksum has to cover them)
@@ -225,6 +248,9 @@ func recordC17(env *Env) {
 					f.Dl, f.Err, same, f.ErrText = instrument(codec, mut, b.text)
 					if same {
 						f.Same = 1
+					}
+					if codec == "gz" {
+						f.Pgz = pgzipVerdict(mut)
 					}
 					emit(f, mut)
 				}
